@@ -408,6 +408,7 @@ type Contract struct {
 	Line       int
 	Ghost      []string
 	Timeout    int
+	OnCalls    map[string]*OnCall
 }
 
 type Pred struct {
@@ -415,6 +416,12 @@ type Pred struct {
 	Params []string
 	Body   SExpr
 	Src    string
+	Rec    bool
+}
+
+type OnCall struct {
+	Requires []*Clause
+	Ensures  []*Clause
 }
 
 type Lemma struct {
@@ -437,7 +444,7 @@ type SpecDB struct {
 
 var clauseKeywords = map[string]bool{"func": true, "requires": true, "ensures": true, "modifies": true, "allocbound": true,
 	"loop": true, "mode": true, "trusted": true, "prop": true, "pred": true, "lemma": true, "pure": true, "inline": true,
-	"split": true, "noverify": true, "ghost": true, "timeout": true, "opaque": true}
+	"split": true, "noverify": true, "ghost": true, "timeout": true, "opaque": true, "recpred": true, "oncall": true}
 
 // LoadSpecs parses every verif_contracts*.go in dir (package name pkg).
 func LoadSpecs(db *SpecDB, dir, pkg string) error {
@@ -528,7 +535,7 @@ func loadSpecFile(db *SpecDB, file, pkg string) error {
 			}
 			cur = &Contract{Key: key, Pkg: pkg, Loops: map[int]*LoopSpec{}, File: file, Line: rl.line, Props: curProps}
 			db.Contracts[key] = cur
-		case "pred":
+		case "pred", "recpred":
 			cur = nil
 			// pred Name(a, b) = expr
 			i := strings.Index(rest, "(")
@@ -543,7 +550,7 @@ func loadSpecFile(db *SpecDB, file, pkg string) error {
 			if err != nil {
 				return fmt.Errorf("%s:%d: %v", file, rl.line, err)
 			}
-			db.Preds[name] = &Pred{Name: name, Params: params, Body: e, Src: rest[k+1:]}
+			db.Preds[name] = &Pred{Name: name, Params: params, Body: e, Src: rest[k+1:], Rec: kw == "recpred"}
 		case "lemma":
 			cur = nil
 			i := strings.Index(rest, ":")
@@ -584,6 +591,32 @@ func loadSpecFile(db *SpecDB, file, pkg string) error {
 				cur.Ghost = append(cur.Ghost, splitComma(rest)...)
 			case "timeout":
 				cur.Timeout, _ = strconv.Atoi(rest)
+			case "oncall":
+				// oncall <param> requires|ensures <expr>
+				fs := strings.SplitN(rest, " ", 3)
+				if len(fs) < 3 {
+					return fmt.Errorf("%s:%d: bad oncall clause", file, rl.line)
+				}
+				if cur.OnCalls == nil {
+					cur.OnCalls = map[string]*OnCall{}
+				}
+				oc := cur.OnCalls[fs[0]]
+				if oc == nil {
+					oc = &OnCall{}
+					cur.OnCalls[fs[0]] = oc
+				}
+				c, err := mk(strings.TrimSpace(fs[2]))
+				if err != nil {
+					return err
+				}
+				switch fs[1] {
+				case "requires":
+					oc.Requires = append(oc.Requires, c)
+				case "ensures":
+					oc.Ensures = append(oc.Ensures, c)
+				default:
+					return fmt.Errorf("%s:%d: bad oncall kind", file, rl.line)
+				}
 			case "split":
 				fs := strings.Fields(rest)
 				cur.Split = fs[0]
